@@ -222,3 +222,22 @@ impl vstd::std_specs::ops::MulSpecImpl<Scalar> for ProjectivePoint {
 }
 impl core::ops::Mul<Scalar> for ProjectivePoint { type Output = ProjectivePoint;
     #[verifier::external_body] fn mul(self, rhs: Scalar) -> (r: ProjectivePoint) { unimplemented!() } }
+// ---- scalar / point arithmetic used by BIP32 ----
+pub uninterp spec fn gen_pt() -> Seq<u8>;    // the generator G
+pub axiom fn axiom_generator_mul(k: Seq<u8>) ensures pt_mul(gen_pt(), k) == pub_of(k);
+impl NonZeroScalar {
+    #[verifier::external_body] pub fn add(self, rhs: Scalar) -> (r: Scalar) ensures r.v@ == sc_add(self.v@, rhs.v@) { unimplemented!() }
+}
+impl ProjectivePoint {
+    #[verifier::external_body] pub fn generator_v() -> (r: ProjectivePoint) ensures r.pt@ == Some(gen_pt()) { unimplemented!() }   // ProjectivePoint::GENERATOR (rule R22)
+}
+pub open spec fn pt_add_opt(a: Option<Seq<u8>>, b: Option<Seq<u8>>) -> Option<Seq<u8>> {
+    match (a, b) { (Some(x), Some(y)) => pt_add(x, y), (None, y) => y, (x, None) => x }
+}
+impl vstd::std_specs::ops::AddSpecImpl<ProjectivePoint> for ProjectivePoint {
+    open spec fn obeys_add_spec() -> bool { true }
+    open spec fn add_req(self, rhs: ProjectivePoint) -> bool { true }
+    open spec fn add_spec(self, rhs: ProjectivePoint) -> ProjectivePoint { ProjectivePoint { pt: Ghost(pt_add_opt(self.pt@, rhs.pt@)) } }
+}
+impl core::ops::Add<ProjectivePoint> for ProjectivePoint { type Output = ProjectivePoint;
+    #[verifier::external_body] fn add(self, rhs: ProjectivePoint) -> (r: ProjectivePoint) { unimplemented!() } }
